@@ -19,8 +19,8 @@ RULE = ("Hypothesis builds a series of 2..60 samples (uniform: integer / hour / 
 ASSUMPTIONS = [
     "x strictly increasing with >= 2 samples, gaps >= 1e-3 and |x| <= 1.1e6 (twv.gens), so one ulp of the largest "
     "repeated abscissa is far below the smallest gap",
-    "values and the first copy are compared bit for bit as float64 ('equals the input', as float: results must be "
-    "float arrays); gaps inside copies and across junctions and the composition's abscissae are compared with "
+    "values and the first copy are compared bit for bit as float64 ('equals the input' as values: an integer result for integer "
+    "input would be accepted); gaps inside copies and across junctions and the composition's abscissae are compared with "
     "tolerance 1e-12 * max|x_out| (worst deviations measured on the pinned tree over 4 000 generated cases: gaps "
     "2.2e-16, composition 4.5e-15 of that scale)",
     "a Weaver whose reference differs from the working series is set up by assigning the public attributes x, y",
